@@ -8,8 +8,21 @@ use rand::{Rng, SeedableRng};
 use serde_json::{json, Value};
 use std::io::Write;
 
-/// parse + consume_rules only (no validation): the reader
+/// The reader proper: parse + the conversion of pairs into rules, WITHOUT the validation of the result
+/// (hook `verif_consume_rules_unvalidated`), so that every text the speller writes has to be read.
 fn read(text: &str) -> Result<Value, String> {
+    match guarded(|| {
+        let pairs = parser::parse(Rule::grammar_rules, text).map_err(|e| format!("parse error: {e}"))?;
+        let ast = parser::verif_consume_rules_unvalidated(pairs).map_err(|es| format!("consume error: {}", es[0]))?;
+        Ok::<Value, String>(rules_json(&ast))
+    }) {
+        Ok(r) => r,
+        Err(m) => Err(format!("panic: {m}")),
+    }
+}
+
+/// What `consume_rules` itself says (reader + validation of the result).
+fn read_validated(text: &str) -> Result<Value, String> {
     match guarded(|| {
         let pairs = parser::parse(Rule::grammar_rules, text).map_err(|e| format!("parse error: {e}"))?;
         let ast = parser::consume_rules(pairs).map_err(|es| format!("consume error: {}", es[0]))?;
@@ -27,17 +40,24 @@ pub fn replay(args: &[String]) {
     let (mut n, mut nm, mut skipped) = (0u64, 0u64, 0u64);
     let mut mism = vec![];
     let mut by_style: std::collections::BTreeMap<String, u64> = Default::default();
+    let skipped_why: std::collections::BTreeMap<String, u64> = Default::default();
     for line in read_lines(&path) {
         let rec: Value = serde_json::from_str(&line).unwrap();
         let text = from_cps(&rec["text"]);
-        // domain: abstract grammars pest accepts - decided on a canonical, fully parenthesised spelling
-        if read(&grammar_text(&rec["rules"], None)).is_err() {
+        // every text the speller writes is in the reader's domain; grammars whose RESULT the validator then
+        // rejects are only counted
+        if read_validated(&text).is_err() && read(&text).is_ok() {
             skipped += 1;
-            continue;
         }
         n += 1;
         let got = read(&text);
-        let ok = matches!(&got, Ok(v) if *v == rec["rules"]);
+        let mut ok = matches!(&got, Ok(v) if *v == rec["rules"]);
+        // where the validator accepts the result, consume_rules itself must return the same rules
+        if ok {
+            if let Ok(v) = read_validated(&text) {
+                ok = v == rec["rules"];
+            }
+        }
         if !ok {
             nm += 1;
             let key = format!("gap={} par={} lead={} esc={}", rec["style"]["gap"], rec["style"]["par"], rec["style"]["lead"], rec["style"]["esc"]);
@@ -49,7 +69,7 @@ pub fn replay(args: &[String]) {
             }
         }
     }
-    println!("{}", json!({"texts": n, "skipped_not_accepted_by_pest": skipped, "mismatch_count": nm, "mismatches": mism, "by_style": by_style}));
+    println!("{}", json!({"texts": n, "skipped_not_accepted_by_pest": skipped, "mismatch_count": nm, "mismatches": mism, "by_style": by_style, "skipped_why": skipped_why}));
 }
 
 fn leaf_tokens(text: &str) -> Option<Vec<String>> {
